@@ -16,7 +16,7 @@ from concurrent.futures import ThreadPoolExecutor
 
 ROOT = os.path.dirname(os.path.dirname(os.path.abspath(__file__)))
 # seeds whose change belongs to another property's clause
-ALSO = {'C16H': ['C13'], 'C07H': ['C17'], 'C16J': ['C13'], 'C13I': ['C16'], 'C16K': ['C13'], 'C16L': ['C17', 'C09']}
+ALSO = {'C16H': ['C13'], 'C07H': ['C17'], 'C16J': ['C13'], 'C13I': ['C16'], 'C16K': ['C13'], 'C16L': ['C17', 'C09'], 'C16P': ['C12']}
 # seeds that no longer apply to /repo's HEAD because a later fix: commit rewrote the lines they change
 SUPERSEDED = {'C14K': 'fix 3f5d47b (D25) is the complete form of this half-change; the seed led to that finding'}
 
